@@ -45,6 +45,7 @@ import (
 	"github.com/Cloud-Foundations/keymaster/lib/authutil"
 	"github.com/Cloud-Foundations/keymaster/lib/pwauth/command"
 	pwldap "github.com/Cloud-Foundations/keymaster/lib/pwauth/ldap"
+	"github.com/Cloud-Foundations/keymaster/lib/simplestorage"
 	"github.com/Cloud-Foundations/keymaster/lib/webapi/v0/proto"
 	"github.com/vjeantet/ldapserver"
 	"golang.org/x/time/rate"
@@ -276,6 +277,19 @@ type c07Hist struct {
 	rejOutage   map[string]bool // ... and whether the primary was not fully up then
 	rejPeer     map[string]bool // ... and whether it was the OTHER instance that got the rejection (it evicts in the shared primary only)
 	lastCopySeq int             // position of the last copy into this instance's cache that completed (returned nil)
+	// the password the directory confirmed LAST for a user at a login HERE that could be stored (primary
+	// writable); absent = not known (never confirmed, confirmed while the primary could not be written, or
+	// the other instance handled a login of the user since: it writes the shared primary only)
+	lastConf map[int]c07Conf
+}
+
+type c07Conf struct {
+	pw    int
+	at    int64 // model time
+	seq   int   // position in the history
+	reSeq int   // position of the previous stored confirmation of this user (-1: none): was a hash stored before?
+	rePw  int   // ... and the password it was for
+	reAt  int64
 }
 
 var c07Users = []string{"", "alice", "bob", "carol"}
@@ -590,9 +604,57 @@ func (h *c07Hist) login(u, pw int) {
 				What: fmt.Sprintf("password #%d of %s was rejected by the directory %d s ago (after its last confirmation) and is accepted from the cache now (%s)", pw, raw, h.now-tr, circumstance), Case: kase, Observed: obs})
 		}
 	}
+	if lc, known := h.lastConf[u]; !answered && known && pw != 0 && !h.tampered[u] && h.now-lc.at < 96*3600-5 {
+		// c07_refresh_whatever_was_stored: the hash that fills an outage is the hash of the password the
+		// directory confirmed LAST for the user (stored then in both stores), unless the directory has
+		// rejected that very password since (evicted).  Shape: was another hash of the user stored shortly /
+		// long before that confirmation, or none; and which store answers now.
+		rk := fmt.Sprintf("%d|%d", u, lc.pw)
+		rejectedSince := false
+		if rs, ok := h.rejSeq[rk]; ok && rs > lc.seq {
+			rejectedSince = true
+		}
+		shape := "first-stored-hash"
+		if lc.reSeq >= 0 {
+			shape = "same-password-stored-before"
+			if lc.rePw != lc.pw {
+				shape = "replaced-password-stored"
+			}
+			if lc.at-lc.reAt < 15*60 {
+				shape += "-minutes-before"
+			} else {
+				shape += "-long-before"
+			}
+		}
+		if e.mode == c15Up {
+			shape += ":primary-answers"
+		} else {
+			shape += ":primary-silent"
+		}
+		kase["last_confirmed_password_no"] = lc.pw
+		if !rejectedSince {
+			if verdict && pw != lc.pw {
+				e.res.hit(verifHit{Key: "C07:outage-accepts-replaced-password:" + shape, Oracle: "acceptance by the directory refreshes the user's cached hash: during an outage the password accepted is the one the directory confirmed last",
+					What: fmt.Sprintf("no replica answered; the directory last confirmed password #%d for %s (%d s ago, stored then), yet password #%d was accepted from the cache", lc.pw, raw, h.now-lc.at, pw), Case: kase, Observed: obs})
+			}
+			if !verdict && pw == lc.pw {
+				e.res.hit(verifHit{Key: "C07:outage-refuses-last-confirmed-password:" + shape, Oracle: "acceptance by the directory refreshes the user's cached hash: during an outage the password accepted is the one the directory confirmed last",
+					What: fmt.Sprintf("no replica answered; the directory last confirmed password #%d for %s (%d s ago, stored then, not rejected since), yet that password was refused", lc.pw, raw, h.now-lc.at), Case: kase, Observed: obs})
+			}
+			e.res.bump("outage-login-vs-last-confirmed:" + shape)
+		}
+	}
+	if answered && dirOK && verdict && !c15Writable(e.mode) {
+		delete(h.lastConf, u) // confirmed but could not be stored: what the stores hold is an older state
+	}
 	if answered && dirOK && verdict && c15Writable(e.mode) {
 		h.confirmedAt[key] = h.now
 		h.confSeq[key] = len(h.ops)
+		nc := c07Conf{pw: pw, at: h.now, seq: len(h.ops), reSeq: -1}
+		if lc, known := h.lastConf[u]; known {
+			nc.reSeq, nc.rePw, nc.reAt = lc.seq, lc.pw, lc.at
+		}
+		h.lastConf[u] = nc
 		if !wrote {
 			e.res.hit(verifHit{Key: "C07:refresh:no-record", Oracle: "acceptance by the directory refreshes the user's cached hash",
 				What: fmt.Sprintf("login %s accepted by the directory wrote no new record into the primary", raw), Case: kase, Observed: obs})
@@ -726,6 +788,9 @@ func (h *c07Hist) peerLogin(u, pw int) {
 	if answered && dirOK && verdict {
 		h.confirmedAt[key] = h.now
 		h.confSeq[key] = len(h.ops)
+	}
+	if answered {
+		delete(h.lastConf, u) // the other instance writes the shared primary only: this instance's stores may differ
 	}
 	if answered && !dirOK {
 		h.rejectedAt[key] = h.now
@@ -938,6 +1003,13 @@ func TestVerif_C07(t *testing.T) {
 		t.Fatal(err)
 	}
 	peer := c07NewPeer(t, e, dirSrv.urls, pool)
+	newPA := func(patterns []string, storage simplestorage.SimpleStore) *pwldap.PasswordAuthenticator {
+		a, err := pwldap.New(dirSrv.urls, patterns, 3, pool, storage, st.logger)
+		if err != nil {
+			t.Fatal(err)
+		}
+		return a
+	}
 	htChecker := st.passwordChecker
 	st.passwordChecker = pa
 	st.Config.Ldap.LDAPTargetURLs = strings.Join(dirSrv.urls, ",")
@@ -966,8 +1038,12 @@ func TestVerif_C07(t *testing.T) {
 		dirSrv.mu.Unlock()
 		h := &c07Hist{e: e, d: dirSrv, rng: rng, attacker: attacker, jwsID: map[string]int{}, dirPw: map[int]int{}, oldPw: map[int][]int{},
 			tampered: map[int]bool{}, acct: map[int]int{}, confirmedAt: map[string]int64{}, rejectedAt: map[string]int64{}, rejOutage: map[string]bool{}, rejPeer: map[string]bool{}, lastCopySeq: -1,
-			confSeq: map[string]int{}, rejSeq: map[string]int{}, peer: peer}
+			confSeq: map[string]int{}, rejSeq: map[string]int{}, peer: peer, lastConf: map[int]c07Conf{}}
 		peer.cacheDB.Exec("DELETE FROM expiring_signed_user_data")
+		// the stores start empty: whatever an authenticator keeps in memory belongs to ONE history
+		// (a new deployment), so every history gets authenticator objects of its own
+		pa, paOne = newPA(c07Patterns, st), newPA(c07Patterns[:1], st)
+		peer.paTwo, peer.paOne = newPA(c07Patterns, peer.st), newPA(c07Patterns[:1], peer.st)
 		peer.pa = peer.paTwo
 		extraPatterns := 1
 		if i%2 == 1 {
@@ -1002,6 +1078,11 @@ func TestVerif_C07(t *testing.T) {
 		}
 	}
 	putExisting := func(h *c07Hist, which string, slot, id int, colDelta int64) {
+		if id >= len(h.recs) {
+			// the login that should have written this record wrote none (its oracle has spoken): the step cannot be taken
+			h.e.res.bump("scripted-step-skipped:no-such-record")
+			return
+		}
 		h.e.settle()
 		h.tick()
 		h.tampered[slot] = true
@@ -1245,6 +1326,54 @@ func TestVerif_C07(t *testing.T) {
 			run(2*i+1, sc) // one bind pattern: the cache/outage basics, mixed replica answers, account-state refusals
 		}
 	}
+	// A KIND of history (not one script): the user's password CHANGES in the directory between two
+	// directory-confirmed logins, then the directory goes away.  login P1 (stored); ChangePw P2;
+	// [a wrong password while the directory answers]; the clock advances by {nothing, minutes, more
+	// than a quarter of an hour, hours}; login P2 (confirmed: c07_refresh_whatever_was_stored - the
+	// stored hash is now P2's, however recently P1's was stored); no replica answers; P2 and P1 are
+	// tried in either order (P2 accepted, P1 refused), with the primary up / dead / slow.
+	kk := 0
+	for _, gap := range []int64{0, 240, 1000, 3*3600 + 7} {
+		for _, oldFirst := range []bool{false, true} {
+			for _, wrongBetween := range []bool{false, true} {
+				k, gap, oldFirst, wrongBetween := kk, gap, oldFirst, wrongBetween
+				kk++
+				run(k+k/2, func(h *c07Hist) {
+					u := 1 + k%2
+					other := 3 - u
+					p1, p2 := 1+k%3, 1+(k+1)%3
+					h.changePw(u, p1)
+					h.changePw(other, 4)
+					h.login(u, p1)
+					h.login(other, 4)
+					h.changePw(u, p2)
+					if wrongBetween {
+						h.login(u, 5) // rejected by the directory; not the cached password: nothing changes
+					}
+					if gap > 0 {
+						h.age(gap)
+					}
+					h.login(u, p2)
+					for r := range h.d.status {
+						h.setServer(r, []int{c07SDown, c07SErroring, c07SMisleading}[(k+r)%3])
+					}
+					if m := []int{c15Up, c15Dead, c15Up, c15Slow}[(k/4+k)%4]; m != c15Up {
+						h.setMode(m)
+					}
+					if oldFirst {
+						h.login(u, p1)
+						h.login(u, p2)
+					} else {
+						h.login(u, p2)
+						h.login(u, p1)
+					}
+					h.login(other, 4)
+					h.login(u, 5)
+					h.e.res.bump("kind:password-changed-between-confirmed-logins")
+				})
+			}
+		}
+	}
 	for i := 0; i < nHist; i++ {
 		run(i, func(h *c07Hist) {
 			tamper := i%3 != 0 // a third of the histories without tampering (eviction / resurrection oracles)
@@ -1355,6 +1484,8 @@ func TestVerif_C07(t *testing.T) {
 	st.passwordChecker = htChecker
 	// ---------------- the same backends over time: the file is edited between logins (c07b.go)
 	fcases, fidx := c07BackendHistories(t, e, res, rng)
+	// ---------------- logins that overlap in time against a slow, scripted, counting backend (c07conc.go; its own case file CasesC07c.v)
+	c07ConcurrentLogins(t, e, res, rng)
 
 	var sb strings.Builder
 	sb.WriteString(coqCaseHeader)
@@ -1365,6 +1496,7 @@ func TestVerif_C07(t *testing.T) {
 	// the property's predicates on the OBSERVATION of the mismatching cases (a failing input when they hold)
 	sb.WriteString("Definition c07_renewed_violating := Eval vm_compute in filter (fun i => match nth_error cases i with Some c => outage_login_renewed c | None => false end) c07_mismatches.\nPrint c07_renewed_violating.\n")
 	sb.WriteString("Definition rec_tables : list (list jws) := [\n" + strings.Join(recTables, ";\n") + "\n].\n")
+	sb.WriteString("Definition c07_norefresh_violating := Eval vm_compute in filter (fun i => match nth_error cases i, nth_error rec_tables i with Some c, Some tb => accepted_login_not_refreshed tb c | _, _ => false end) c07_mismatches.\nPrint c07_norefresh_violating.\n")
 	sb.WriteString("Definition c07_stale_violating := Eval vm_compute in filter (fun i => match nth_error cases i, nth_error rec_tables i with Some c, Some tb => stale_cache_decided tb c | _, _ => false end) c07_mismatches.\nPrint c07_stale_violating.\n")
 	// the backend table: (lower-case name, index of its password in the list above)
 	sb.WriteString("Definition btable : list (bs * N) := [(" + coqPacked([]byte("alice")) + ", 0%N); (" + coqPacked([]byte("bob")) + ", 1%N); (" + coqPacked([]byte("admin")) + ", 2%N)].\n")
